@@ -8,23 +8,25 @@ from sa import normalize as N
 repo = sys.argv[1] if len(sys.argv) > 1 else '/repo'
 out = {}
 nf = 0
-for root, dirs, files in os.walk(os.path.join(repo, 'adsg_core')):
+files = []
+for root, dirs, fs in os.walk(os.path.join(repo, 'adsg_core')):
     if '/tests' in root + '/':
         continue
-    for f in sorted(files):
-        if not f.endswith('.py'):
-            continue
-        p = os.path.join(root, f)
-        rel = os.path.relpath(p, repo)[:-3].replace(os.sep, '.')
-        if rel.endswith('.__init__'):
-            rel = rel[:-9]
-        tree = N.normalize_expr_tree(ast.parse(open(p).read()))
-        entry = {}
-        for q, fn in N.iter_functions(tree):
-            if N.function_locals(fn):
-                entry[q] = N.function_signature(fn)
-                nf += 1
-        if entry:
-            out[rel] = entry
+    for f in sorted(fs):
+        if f.endswith('.py'):
+            files.append(os.path.join(root, f))
+sigs = N.build_signature_index([ast.parse(open(p).read()) for p in files])
+for p in sorted(files):
+    rel = os.path.relpath(p, repo)[:-3].replace(os.sep, '.')
+    if rel.endswith('.__init__'):
+        rel = rel[:-9]
+    tree = N._CallStyle(sigs).visit(N.normalize_expr_tree(ast.parse(open(p).read())))
+    entry = {}
+    for q, fn in N.iter_functions(tree):
+        if N.function_locals(fn):
+            entry[q] = N.function_signature(fn)
+            nf += 1
+    if entry:
+        out[rel] = entry
 json.dump(out, open(N.REF_FILE, 'w'), indent=0, sort_keys=True)
 print(f'{len(out)} modules, {nf} functions with locals -> {N.REF_FILE}')
